@@ -9,21 +9,28 @@ open Zarrs
 
 /-- the code's right-to-left `unravel_index` equals the left-to-right form for positive extents -/
 theorem unravel_eq_unravelL (n : Nat) (sh : Shape) : unravel n sh = unravelL n sh := by
-  sorry
+  exact unravel_eq_L n sh
 
 theorem unravel_ravel (i : Idx) (sh : Shape) (h : inB i sh = true) : unravel (ravel i sh) sh = i := by
-  sorry
+  rw [unravel_eq_L]; exact unravelL_ravel i sh h
+
+example : inB [1, 0, 2] [2, 3, 4] = true := by decide
 
 theorem ravel_unravel (n : Nat) (sh : Shape) (h : n < prod sh) : ravel (unravel n sh) sh = n := by
-  sorry
+  rw [unravel_eq_L]; exact ravel_unravelL n sh h
+
+example : 17 < prod [2, 3, 4] := by decide
 
 theorem unravel_inB (n : Nat) (sh : Shape) (h : n < prod sh) : inB (unravel n sh) sh = true := by
-  sorry
+  rw [unravel_eq_L]; exact unravelL_inB n sh h
 
 /-- `ravel` is strictly monotone from C order to `<` on in-bounds indices -/
 theorem ravel_strictMono (a b : Idx) (sh : Shape) (ha : inB a sh = true) (hb : inB b sh = true)
     (hlt : lexLt a b = true) : ravel a sh < ravel b sh := by
-  sorry
+  exact ravel_lexLt_lt a b sh ha hb hlt
+
+example : inB [0, 2, 3] [2, 3, 4] = true ∧ inB [1, 0, 1] [2, 3, 4] = true ∧ lexLt [0, 2, 3] [1, 0, 1] = true := by
+  decide
 
 /-- the specification enumeration is exactly the subset, strictly increasing in C order, with the
 advertised length -/
@@ -31,60 +38,113 @@ theorem indices_exact (s : Subset) (h : s.wf = true) :
     s.indices.Pairwise (fun a b => lexLt a b = true) ∧
     (∀ i, i ∈ s.indices ↔ s.contains i = true) ∧
     s.indices.length = s.numElements := by
-  sorry
+  exact ⟨s.indices_pairwise h, s.mem_indices h, s.indices_length⟩
+
+example : (Subset.mk [1, 0, 2] [2, 3, 2]).wf = true := by decide
 
 /-- the iterator (as the code computes it: `unravel_index(k) + start` for `k` in the range) yields
 exactly the specification enumeration -/
 theorem iter_items (s : Subset) (h : s.wf = true) : (Iter.new s).items = s.indices := by
-  sorry
+  have _ := h  -- not needed: both sides truncate identically on rank mismatch
+  exact Iter.new_items s
 
 /-- any mixture of `next` / `next_back`: fronts ++ rest ++ reverse backs is the original sequence, and
 the reported length drops by one per yielded item -/
 theorem iter_any_direction (it : Iter) (dirs : List Bool) :
     (it.run dirs).1 ++ (it.run dirs).2.2.items ++ (it.run dirs).2.1.reverse = it.items ∧
     (it.run dirs).2.2.len + (it.run dirs).1.length + (it.run dirs).2.1.length = it.len := by
-  sorry
+  exact it.run_spec dirs
 
 /-- `len` is the exact number of remaining items -/
 theorem iter_len (it : Iter) : it.items.length = it.len := by
-  sorry
+  exact it.items_length
 
 /-- an exhausted iterator stays exhausted in both directions (fused) -/
 theorem iter_fused (it : Iter) (h : it.len = 0) : it.next = none ∧ it.nextBack = none := by
-  sorry
+  simp only [Iter.len] at h
+  have : ¬ it.lo < it.hi := by omega
+  simp [Iter.next, Iter.nextBack, this]
+
+example : (Iter.mk (Subset.mk [1, 0] [2, 3]) 6 6).len = 0 := by decide
 
 /-- every tree of rayon `split_at` calls partitions the sequence, in order -/
 theorem split_tree (t : SplitTree) (it : Iter) (h : t.fits it.len = true) :
     (t.leaves it).flatMap Iter.items = it.items := by
-  sorry
+  exact t.leaves_items it h
+
+example : (SplitTree.node 2 (.node 1 .leaf .leaf) (.node 3 .leaf .leaf)).fits
+    (Iter.new (Subset.mk [1, 0] [2, 3])).len = true := by decide
 
 theorem linearised_eq (s : Subset) (arr : Shape) (h : s.wf = true) :
     s.linearised arr = s.indices.map (fun i => ravel i arr) := by
-  sorry
+  have _ := h
+  simp only [Subset.linearised, Iter.new_items]
 
 /-- linearised indices of an in-bounds subset are strictly increasing (each element once, C order) -/
 theorem linearised_sorted (s : Subset) (arr : Shape) (h : s.wf = true) (hb : s.inboundsShape arr = true) :
     (s.linearised arr).Pairwise (· < ·) := by
-  sorry
+  rw [linearised_eq s arr h, List.pairwise_map]
+  refine (s.indices_pairwise h).imp_of_mem ?_
+  intro a b ha hb' hab
+  simp only [Subset.inboundsShape, Subset.rank, Bool.and_eq_true, beq_iff_eq] at hb
+  rw [s.mem_indices h] at ha hb'
+  exact ravel_lexLt_lt a b arr (inB_of_allLe_end a _ _ arr hb.1 hb.2 ha)
+    (inB_of_allLe_end b _ _ arr hb.1 hb.2 hb') hab
+
+example : (Subset.mk [1, 0, 2] [2, 3, 2]).wf = true ∧
+    (Subset.mk [1, 0, 2] [2, 3, 2]).inboundsShape [4, 3, 5] = true := by decide
 
 /-- the contiguous runs `[r, r + run)` over the run starts, in order, concatenate to the linearised
 indices: every element in exactly one run -/
 theorem contiguous_tiles (s : Subset) (arr : Shape) (h : s.wf = true) (hb : s.inboundsShape arr = true) :
     (s.contiguousLinearised arr).flatMap (fun r => List.range' r (s.contiguous arr).run) = s.linearised arr := by
-  sorry
+  simp only [Subset.wf, beq_iff_eq] at h
+  simp only [Subset.inboundsShape, Subset.rank, Bool.and_eq_true, beq_iff_eq] at hb
+  exact s.contiguous_tiles arr h hb.1
+
+example : (Subset.mk [1, 0, 0] [2, 2, 5]).wf = true ∧
+    (Subset.mk [1, 0, 0] [2, 2, 5]).inboundsShape [4, 3, 5] = true := by decide
 
 /-- byte ranges cover exactly the bytes of the subset's elements, in order -/
 theorem byteRanges_exact (s : Subset) (arr : Shape) (es : Nat) (h : s.wf = true)
     (hb : s.inboundsShape arr = true) :
     (s.byteRanges arr es).flatMap (fun p => List.range' p.1 p.2) =
     (s.linearised arr).flatMap (fun k => List.range' (k * es) es) := by
-  sorry
+  rw [← contiguous_tiles s arr h hb]
+  simp only [Subset.byteRanges, List.flatMap_map, List.flatMap_assoc, range'_mul_cells]
+
+example : (Subset.mk [1, 0, 0] [2, 2, 5]).wf = true ∧
+    (Subset.mk [1, 0, 0] [2, 2, 5]).inboundsShape [4, 3, 5] = true := by decide
 
 /-- `extract_elements` is the element-by-element gather -/
 theorem extract_exact {α} (s : Subset) (arr : Shape) (xs : List α) (h : s.wf = true)
     (hb : s.inboundsShape arr = true) (hx : xs.length = prod arr) :
     (s.extract arr xs).map some = s.gather arr xs := by
-  sorry
+  have ht := contiguous_tiles s arr h hb
+  have hlt : ∀ k ∈ s.linearised arr, k < xs.length := by
+    intro k hk
+    rw [linearised_eq s arr h, List.mem_map] at hk
+    obtain ⟨i, hi, rfl⟩ := hk
+    rw [s.mem_indices h] at hi
+    simp only [Subset.inboundsShape, Subset.rank, Bool.and_eq_true, beq_iff_eq] at hb
+    rw [hx]
+    exact ravel_lt i arr (inB_of_allLe_end i _ _ arr hb.1 hb.2 hi)
+  have hstep : ∀ r ∈ s.contiguousLinearised arr,
+      ((xs.drop r).take (s.contiguous arr).run).map some =
+        (List.range' r (s.contiguous arr).run).map (fun k => xs[k]?) := by
+    intro r hr
+    apply take_drop_map_some
+    intro k hk
+    apply hlt
+    rw [← ht, List.mem_flatMap]
+    exact ⟨r, hr, hk⟩
+  simp only [Subset.extract, Subset.gather, List.map_flatMap]
+  rw [flatMap_congr' hstep, ← List.map_flatMap, ht, linearised_eq s arr h, List.map_map]
+  rfl
+
+example : (Subset.mk [1, 0, 0] [2, 2, 5]).wf = true ∧
+    (Subset.mk [1, 0, 0] [2, 2, 5]).inboundsShape [4, 3, 5] = true ∧
+    (List.range 60).length = prod [4, 3, 5] := by decide
 
 /-- the chunk iterator reports exactly the chunks whose box meets the subset, in C order, each once -/
 theorem chunks_exact (s : Subset) (cs : Shape) (h : s.wf = true) (hc : cs.length = s.rank)
@@ -93,37 +153,101 @@ theorem chunks_exact (s : Subset) (cs : Shape) (h : s.wf = true) (hc : cs.length
     (∀ c : Idx, c ∈ (s.chunks cs).map (·.1) ↔
       (c.length = s.rank ∧ ∃ i, s.contains i = true ∧ (Subset.mk (zipMul c cs) cs).contains i = true)) ∧
     (∀ p ∈ s.chunks cs, p.2 = Subset.mk (zipMul p.1 cs) cs) := by
-  sorry
+  have hwf := s.chunkBox_wf cs h hc
+  rw [s.chunks_fst cs]
+  refine ⟨(s.chunkBox cs).indices_pairwise hwf, ?_, ?_⟩
+  · intro c
+    rw [(s.chunkBox cs).mem_indices hwf]
+    exact s.contains_chunkBox cs h hc hpos c
+  · intro p hp
+    simp only [Subset.chunks, List.mem_map] at hp
+    obtain ⟨c, _, rfl⟩ := hp
+    rfl
+
+example : (Subset.mk [1, 0, 5] [4, 3, 2]).wf = true ∧ [2, 2, 3].length = (Subset.mk [1, 0, 5] [4, 3, 2]).rank ∧
+    ∀ c ∈ [2, 2, 3], 0 < c := by decide
 
 theorem overlap_mem (a b : Subset) (ha : a.wf = true) (hb : b.wf = true) (hr : a.rank = b.rank) (i : Idx) :
     (a.overlap b).contains i = (a.contains i && b.contains i) := by
-  sorry
+  simp only [Subset.wf, beq_iff_eq] at ha hb
+  simp only [Subset.rank] at hr
+  exact mem_overlap i a.start a.shape b.start b.shape ha hb hr
+
+example : (Subset.mk [1, 0] [2, 3]).wf = true ∧ (Subset.mk [2, 1] [4, 1]).wf = true ∧
+    (Subset.mk [1, 0] [2, 3]).rank = (Subset.mk [2, 1] [4, 1]).rank := by decide
 
 /-- the unrepaired subtraction underflows exactly when the operands are disjoint in some dimension;
 the specification form never fails and yields an empty subset then -/
 theorem overlap_disjoint_empty (a b : Subset) (ha : a.wf = true) (hb : b.wf = true) (hr : a.rank = b.rank)
     (h : a.overlapUnderflows b = true) : (a.overlap b).isEmpty = true := by
-  sorry
+  have _ := ha; have _ := hb; have _ := hr
+  exact zipUnderflow_any _ _ h
+
+example : (Subset.mk [1, 0] [2, 3]).wf = true ∧ (Subset.mk [4, 1] [4, 1]).wf = true ∧
+    (Subset.mk [1, 0] [2, 3]).rank = (Subset.mk [4, 1] [4, 1]).rank ∧
+    (Subset.mk [1, 0] [2, 3]).overlapUnderflows (Subset.mk [4, 1] [4, 1]) = true := by decide
 
 theorem bound_mem (s : Subset) (e : Idx) (h : s.wf = true) (he : e.length = s.rank) (i : Idx) :
     (s.bound e).contains i = (s.contains i && inB i e) := by
-  sorry
+  simp only [Subset.wf, beq_iff_eq] at h
+  simp only [Subset.rank] at he
+  exact mem_bound i s.start s.shape e h he
 
+example : (Subset.mk [1, 0] [2, 3]).wf = true ∧ [2, 2].length = (Subset.mk [1, 0] [2, 3]).rank := by decide
+
+/-- STATEMENT CHANGE: hypothesis `hi : i.length ≤ s.rank` added.  Without it the statement is false
+because `addIdx` truncates an over-long `i` to the rank while `contains` rejects it:
+`s = ⟨[0],[1]⟩`, `o = [0]`, `i = [0,7]` gives `false = true` (checked by `example` below). -/
 theorem relativeTo_mem (s : Subset) (o : Idx) (h : s.wf = true) (ho : o.length = s.rank)
-    (hu : s.relativeToUnderflows o = false) (i : Idx) :
+    (hu : s.relativeToUnderflows o = false) (i : Idx) (hi : i.length ≤ s.rank) :
     (s.relativeTo o).contains i = s.contains (addIdx i o) := by
-  sorry
+  simp only [Subset.wf, beq_iff_eq] at h
+  simp only [Subset.rank] at ho hi
+  exact mem_relativeTo i s.start s.shape o h ho hu hi
+
+example : (Subset.mk [3, 2] [2, 3]).wf = true ∧ [1, 2].length = (Subset.mk [3, 2] [2, 3]).rank ∧
+    (Subset.mk [3, 2] [2, 3]).relativeToUnderflows [1, 2] = false ∧
+    [2, 1].length ≤ (Subset.mk [3, 2] [2, 3]).rank := by decide
+/-- counterexample to the original statement (no length bound on `i`) -/
+example : ((Subset.mk [0] [1]).relativeTo [0]).contains [0, 7] = false ∧
+    (Subset.mk [0] [1]).contains (addIdx [0, 7] [0]) = true := by decide
 
 theorem inbounds_sound (s o : Subset) (hs : s.wf = true) (ho : o.wf = true) (h : s.inbounds o = true) :
     s.rank = o.rank ∧ ∀ i, s.contains i = true → o.contains i = true := by
-  sorry
+  simp only [Subset.wf, beq_iff_eq] at hs ho
+  simp only [Subset.inbounds, Subset.rank, Bool.and_eq_true, beq_iff_eq] at h
+  obtain ⟨⟨hr, h1⟩, h2⟩ := h
+  exact ⟨hr, fun i hi => mem_of_allLe i s.start s.shape o.start o.shape hs ho hr h1 h2 hi⟩
+
+example : (Subset.mk [1, 1] [2, 3]).wf = true ∧ (Subset.mk [0, 1] [4, 3]).wf = true ∧
+    (Subset.mk [1, 1] [2, 3]).inbounds (Subset.mk [0, 1] [4, 3]) = true := by decide
 
 theorem inbounds_complete (s o : Subset) (hs : s.wf = true) (ho : o.wf = true) (hne : s.isEmpty = false)
     (hr : s.rank = o.rank) (h : ∀ i, s.contains i = true → o.contains i = true) : s.inbounds o = true := by
-  sorry
+  have _ := ho
+  simp only [Subset.wf, beq_iff_eq] at hs
+  simp only [Subset.isEmpty] at hne
+  simp only [Subset.rank] at hr
+  simp only [Subset.inbounds, Subset.rank, Bool.and_eq_true, beq_iff_eq]
+  refine ⟨⟨hr, ?_⟩, ?_⟩
+  · exact allLe_of_mem _ _ _ (h _ (mem_start s.start s.shape hs hne))
+  · exact allLe_end_of_mem_last _ _ _ _ hne (h _ (mem_last s.start s.shape hs hne))
+
+example : (Subset.mk [1, 1] [2, 3]).wf = true ∧ (Subset.mk [0, 1] [4, 3]).wf = true ∧
+    (Subset.mk [1, 1] [2, 3]).isEmpty = false ∧
+    (Subset.mk [1, 1] [2, 3]).rank = (Subset.mk [0, 1] [4, 3]).rank := by decide
 
 theorem inboundsShape_iff (s : Subset) (arr : Shape) (hs : s.wf = true) (hne : s.isEmpty = false) :
     s.inboundsShape arr = true ↔ (s.rank = arr.length ∧ ∀ i, s.contains i = true → inB i arr = true) := by
-  sorry
+  simp only [Subset.wf, beq_iff_eq] at hs
+  simp only [Subset.isEmpty] at hne
+  simp only [Subset.inboundsShape, Subset.rank, Bool.and_eq_true, beq_iff_eq]
+  constructor
+  · rintro ⟨hr, h⟩
+    exact ⟨hr, fun i hi => inB_of_allLe_end i s.start s.shape arr hr h hi⟩
+  · rintro ⟨hr, h⟩
+    exact ⟨hr, allLe_end_of_inB_last _ _ _ hne (h _ (mem_last s.start s.shape hs hne))⟩
+
+example : (Subset.mk [1, 1] [2, 3]).wf = true ∧ (Subset.mk [1, 1] [2, 3]).isEmpty = false := by decide
 
 end Zarrs.C09
